@@ -69,8 +69,27 @@ Theorem C14_watch_commit_equals_rescan_partial :
     watch_commit rest on_action on_nglob_change hash_fs matches universe g U D
     = startup_rescan rest on_action on_nglob_change hash_fs exists_fs matches universe g.
 Proof.
-  intros. unfold watch_commit. apply watch_commit_equals_rescan_gen; assumption.
+  intros. unfold watch_commit.
+  (* the statement list the translator read from Watcher.run_once IS the modelled shape *)
+  change commit_program with (base_program commit_attached_only).
+  rewrite run_commit_base. apply watch_commit_equals_rescan_gen; assumption.
 Qed.
+
+(* (2), why `deleted` is not pruned: a commit that discards the unchanged re-hashes from BOTH sets (statement
+   list prune_both_program, everything else as in run_once) differs from the rescan on a well-formed,
+   covered instance: a static file that is a recorded match vanished during the build (MISSING, hash unknown,
+   still listed), DELETED is recorded, the re-hash is "unchanged": the stale match stays, the rescan drops
+   it.  The statement list of run_once agrees with the rescan on the same instance. *)
+Theorem C14_commit_pruning_deleted_refuted :
+  WellFormed unit any_match g_pd /\
+  Covers unit hash_pd exists_pd any_match [p_pd] true g_pd [] [p_pd] /\
+  run_commit unit (fun _ _ x => x) (fun _ x => x) hash_pd any_match [p_pd] prune_both_program g_pd [] [p_pd]
+  = Some g_pd /\
+  startup_rescan unit (fun _ _ x => x) (fun _ x => x) hash_pd exists_pd any_match [p_pd] g_pd
+  = Some (mk_g [mk_fnode p_pd true FS_MISSING None] [mk_ng 0 [112] true []] tt) /\
+  run_commit unit (fun _ _ x => x) (fun _ x => x) hash_pd any_match [p_pd] (base_program true) g_pd [] [p_pd]
+  = startup_rescan unit (fun _ _ x => x) (fun _ x => x) hash_pd exists_pd any_match [p_pd] g_pd.
+Proof. exact prune_deleted_refuted. Qed.
 
 (* (3) start_build_phase and reset_interrupted_steps hand the same steps (all attached FAILED ones)
    to mark_step_pending when no step is RUNNING or CHECKING, which is the case in a watch phase. *)
@@ -245,9 +264,13 @@ Theorem C14_rebuild_equals_restart :
     = restart R on_action on_nglob_change mark_step_pending hash_fs exists_fs matches universe getenv outcome build g.
 Proof.
   intros R oa on msp hf ef mt un ge oc bd g items w g1 ND MS MU NF FK EU WF CF DU. split.
-  - unfold watch_rebuild_pre, watch_commit. fold w. fold g1.
+  - unfold watch_rebuild_pre, watch_rebuild_pre_with, watch_commit. fold w. fold g1.
+    change commit_program with (base_program commit_attached_only). rewrite run_commit_base.
     apply (rebuild_pre_equals_restart_pre R oa on msp hf ef mt un ge commit_attached_only g items); assumption.
-  - apply (rebuild_equals_restart R oa on msp hf ef mt un ge oc bd g items); assumption.
+  - unfold watch_rebuild, watch_rebuild_pre, watch_commit.
+    change commit_program with (base_program commit_attached_only).
+    rewrite <- (rebuild_equals_restart R oa on msp hf ef mt un ge oc bd commit_attached_only g items) by assumption.
+    unfold watch_rebuild_pre_with. rewrite run_commit_base. reflexivity.
 Qed.
 
 (* the legitimate difference: a variable a step uses changed between the two directors *)
